@@ -285,7 +285,7 @@ func genC08(r *rand.Rand, idx int, tier string) *CnfCase {
 		cert = solverTrace(n, cls)
 		if len(cert) > 0 {
 			k := r.Intn(len(cert))
-			switch r.Intn(6) {
+			switch r.Intn(7) {
 			case 0: // drop a literal
 				if len(cert[k]) > 0 {
 					j := r.Intn(len(cert[k]))
@@ -301,6 +301,16 @@ func genC08(r *rand.Rand, idx int, tier string) *CnfCase {
 				cert = append(cert[:k:k], cert[k+1:]...)
 			case 3: // permute lines
 				r.Shuffle(len(cert), func(i, j int) { cert[i], cert[j] = cert[j], cert[i] })
+			case 4: // a tautological line mentioning l, followed by a line from which l was dropped
+				if len(cert[k]) >= 2 {
+					j := r.Intn(len(cert[k]))
+					l := cert[k][j]
+					y := 1 + r.Intn(n)
+					short := append(append([]int{}, cert[k][:j]...), cert[k][j+1:]...)
+					taut := []int{l, y, -y}
+					rest := append([][]int{taut, short}, cert[k+1:]...)
+					cert = append(cert[:k:k], rest...)
+				}
 			}
 		}
 	}
